@@ -177,19 +177,21 @@ def probe_insert_rule(index, rep, rid, modules):
     for m in modules:
         for fi in index.functions_in_module(m):
             loops = [w for w in walk_no_nested(fi.node) if isinstance(w, ast.While) and isinstance(w.test, ast.Compare) and len(w.test.ops) == 1 and isinstance(w.test.ops[0], ast.In)
-                     and isinstance(w.test.left, ast.Name) and isinstance(w.test.comparators[0], ast.Attribute) and norm(w.test.comparators[0].value) == "self"]
+                     and (isinstance(w.test.left, ast.Name) or (isinstance(w.test.left, ast.Call) and isinstance(w.test.left.func, ast.Attribute) and isinstance(w.test.left.func.value, ast.Name) and not w.test.left.args))
+                     and isinstance(w.test.comparators[0], ast.Attribute) and norm(w.test.comparators[0].value) == "self"]
             if not loops:
                 continue
             cfg = cfg_of(fi)
             for w in loops:
-                key, dct = w.test.left.id, norm(w.test.comparators[0])
+                key_expr = norm(w.test.left)
+                key, dct = (w.test.left.id if isinstance(w.test.left, ast.Name) else w.test.left.func.value.id), norm(w.test.comparators[0])
                 probes = {t.id for t in cfg.nodes if t.kind == "test" and t.stmt is w}
                 stores = [x for x in cfg.nodes if x.kind == "stmt" and isinstance(x.ast, ast.Assign) and isinstance(x.ast.targets[0], ast.Subscript)
                           and norm(x.ast.targets[0].value) == dct]
                 for st in stores:
                     n += 1
                     k = st.ast.targets[0].slice
-                    if not (isinstance(k, ast.Name) and k.id == key):
+                    if norm(k) != key_expr:
                         rep.check(False, rid, fi.qualname, "inserted key `%s` is not the probed `%s`" % (norm(k), key), fn_where(fi, st.stmt), "",
                                   "%s probes `%s in %s` but inserts under `%s`: the uniqueness loop checks a different key from the one it stores" % (fi.qualname, key, dct, norm(k)))
                         continue
@@ -624,3 +626,32 @@ def run(index, rep, tier):
             rep.check(not nm_.endswith("ucase"), "R09.18", pf.qualname, "SYMBOLS member read through the upper-casing token reader", fn_where(pf, d), "SYMBOLS members are read with %s" % nm_,
                       "_parse_format_statement reads the members of the SYMBOLS list with `%s`: a standard alphabet over lower-case symbols (a, b, c) is rebuilt over A, B, C, so the rows read back carry other symbols than the ones written (abca -> ABCA)" % nm_)
         rep.floor("R09.18", "token reads feeding the SYMBOLS list", 2, len(defs))
+
+    # ---- R09.19 titles are unique the way the reader compares them
+    with rep.section("R09.19"):
+        rep.rule("R09.19", "block titles are unique the way the reader compares them: the NEXUS reader matches LINK / TITLE values after upper-casing both sides, so the writer's uniqueness probe and the key it records are case-folded too (two namespaces labelled `taxa` and `TAXA` must not get the same title)")
+        folded_reads = 0
+        for q in ("_get_taxon_namespace", "_get_char_matrix", "_get_tree_list"):
+            f = index.functions.get(XR + "." + q)
+            if f is None:
+                continue
+            for c in ast.walk(f.node):
+                if isinstance(c, ast.Compare) and len(c.ops) == 1 and isinstance(c.ops[0], ast.Eq) and all(isinstance(x, ast.Call) and isinstance(x.func, ast.Attribute) and x.func.attr in ("upper", "lower", "casefold") for x in (c.left, c.comparators[0])):
+                    folded_reads += 1
+        if folded_reads == 0:
+            raise AnalysisError("R09.19: the reader's case-insensitive title comparison was not recognised")
+        gt = index.function(XW + "._get_block_title")
+        probes = [t for t in ast.walk(gt.node) if isinstance(t, ast.Compare) and len(t.ops) == 1 and isinstance(t.ops[0], (ast.In, ast.NotIn)) and norm(t.comparators[0]) == "self._title_block_map"]
+        stores = [a for a in ast.walk(gt.node) if isinstance(a, ast.Assign) and isinstance(a.targets[0], ast.Subscript) and norm(a.targets[0].value) == "self._title_block_map"]
+        if not probes or not stores:
+            raise AnalysisError("R09.19: uniqueness probe / record in _get_block_title not recognised")
+
+        def is_folded(e):
+            return isinstance(e, ast.Call) and isinstance(e.func, ast.Attribute) and e.func.attr in ("upper", "lower", "casefold") and not e.args
+        for pr in probes:
+            rep.check(is_folded(pr.left), "R09.19", gt.qualname, "title probed case-sensitively: %s" % norm(pr)[:50], fn_where(gt, pr), "the uniqueness probe folds the title",
+                      "NexusWriter._get_block_title tests `%s` with the title as spelled, while the reader compares titles after .upper(): the labels `taxa` and `TAXA` pass as distinct titles, and reading the file back fails with MultipleBlockWithSameTitleError (or links a block to the wrong namespace)" % norm(pr)[:60])
+        for st in stores:
+            rep.check(is_folded(st.targets[0].slice), "R09.19", gt.qualname, "title recorded case-sensitively: %s" % norm(st.targets[0])[:50], fn_where(gt, st), "the recorded key is the folded title",
+                      "NexusWriter._get_block_title records the title under `%s`: the probe for the next block must find titles that differ only in case" % norm(st.targets[0])[:60])
+        rep.floor("R09.19", "case-folding title comparisons in the reader", 2, folded_reads)
